@@ -111,11 +111,51 @@ Proof. exact nonincremental_full. Qed.
 
 (* ---------------------------------------------------------------- silence when up to date *)
 Theorem C02_idle_incremental_silent : forall st c x y w h,
-  pending st c = false ->
+  pending st c = false -> cScaled c = None ->
   let c1 := request_client (sW st) (sH st) true x y w h c in
   tick_client st c1 = Some (c1, None) /\
   exists c', send_client st c1 = Some (c', None).
 Proof. exact idle_incremental_silent. Qed.
+
+(* ---------------------------------------------------------------- the deferral timer *)
+(* deferring never loses an update: whatever deferUpdateTime and the clock (gettimeofday) are - also
+   when the clock runs backwards - rfbUpdateClient keeps the invariant (C02_inv_preserved quantifies
+   over histories that contain OpTime / OpDefer / OpTick in any order) *)
+Theorem C02_deferral_sound : forall st c c' m,
+  Inv st -> In c (sClients st) -> tick_client st c = Some (c', m) ->
+  InvC (sW st) (sH st) (fb_for st c') c'.
+Proof. exact deferral_sound. Qed.
+
+(* while it defers, only the timer changes: M, C, R, flags and the picture are untouched *)
+Theorem C02_deferral_keeps_update : forall st c c' m,
+  tick_client st c = Some (c', m) -> xDefer (sExt st) <> 0 ->
+  xDefU (cExt c) = 0 \/
+  ((xNowS (sExt st) <? xDefS (cExt c)) || (elapsed_ms st c >? xDefer (sExt st)) = false) ->
+  m = None /\ exists e, c' = set_cext c e.
+Proof. exact tick_deferring_keeps. Qed.
+
+(* once the timer has expired the update is sent exactly as without deferral *)
+Theorem C02_deferral_expired_sends : forall st c,
+  scaled_guard c = false -> pending st c && negb (rgn_is_empty (cR c)) = true ->
+  xDefer (sExt st) <> 0 -> xDefU (cExt c) <> 0 ->
+  (xNowS (sExt st) <? xDefS (cExt c)) || (elapsed_ms st c >? xDefer (sExt st)) = true ->
+  tick_client st c = send_client st (set_cext c (mkCExt (xDefS (cExt c)) 0 (cScaled c))).
+Proof. exact tick_expired_sends. Qed.
+
+(* ---------------------------------------------------------------- SetPixelFormat mid-session *)
+Theorem C02_setpixelformat_resync : forall st c bpp,
+  Inv st -> In c (sClients st) ->
+  let c' := setpf_client st bpp c in
+  InvC (sW st) (sH st) (fb_for st c') c' /\ cBpp c' = bpp.
+Proof. exact setpixelformat_resync. Qed.
+
+(* ---------------------------------------------------------------- other encodings *)
+(* convergence only needs "pixel rectangles deliver fb": with any encoding whose decoded rectangle
+   carries the framebuffer content (C01's theorem for each lossless encoding) the sender behaves
+   exactly like the Raw model, so all theorems of this file hold for it *)
+Theorem C02_any_lossless_encoding : forall deliver st c,
+  delivers_fb deliver -> send_client_gen (client_apply_with deliver) st c = send_client st c.
+Proof. exact any_lossless_encoding. Qed.
 
 (* ---------------------------------------------------------------- coalescing *)
 Theorem C02_coalesce_sound : forall st U,
@@ -159,7 +199,9 @@ Definition nv_ops : list op :=
    OpRequest 0 false 0 0 12 8; OpTick 0; OpDraw 1 1 9 6 7; OpDoCopyRect 4 2 8 5 2 1;
    OpSchedCopy [(5, 3, 9, 6); (2, 1, 4, 3)] 2 1; OpDoCopyRegion [(1, 4, 6, 6); (2, 6, 10, 8)] 1 3;
    OpMark (-3) 9 5 2; OpMark 15 1 20 5; OpSetCursor None; OpDoCopyRect 4 2 8 5 2 1; OpRequest 0 true 2 1 8 5; OpTick 0; OpRequest 1 false 0 0 20 20; OpSend 1;
-   OpKnobs 1 3; OpDraw 0 0 2 2 5; OpDraw 9 6 12 8 6; OpRequest 0 true 0 0 12 8; OpTick 0].
+   OpKnobs 1 3; OpDraw 0 0 2 2 5; OpDraw 9 6 12 8 6; OpRequest 0 true 0 0 12 8; OpTick 0;
+   OpDefer 40; OpDraw 3 3 6 6 8; OpRequest 0 true 0 0 12 8; OpTick 0; OpTime 1000 30000; OpTick 0;
+   OpTime 999 0; OpTick 0; OpSetPixelFormat 1 2; OpTick 1; OpTime 1001 0; OpTick 1].
 
 Ltac run_ok_tac :=
   repeat (split; [first [exact I | solve [cbn; repeat split; lia] | solve [repeat constructor; cbn; lia]] |
